@@ -4,43 +4,16 @@ import os
 
 VERIF = os.path.dirname(os.path.dirname(os.path.abspath(__file__)))
 
-CHECKS = {
-    "C16": dict(
-        technique="Coq proof (induction over the call sequence) of the Count state machine + correspondence check against the real CountTag",
-        text="Proof: closed form start+k*step per directory / globally for every interleaving, injectivity (no repeats), "
-             "raise iff negative, zfill never truncates and reads back, distinct values give distinct names — all proved in Coq "
-             "for unbounded inputs about the Gallina model Tags/Count.v; the model is tied to tempren/tags/core.py by running the "
-             "real tag through compiled templates on generated call sequences and evaluating the model inside Coq on the same sequences.",
-        design_ref="DESIGN.md §4 C16, §3.7",
-        note="Trusted: Coq kernel + vm_compute; axioms none; harness/c16.py + Corr/CountCorr.v; modelled not verified: Python int/str/zfill/defaultdict. "
-             "The tie to the code is sampled (differential), the theorems are about the model."),
-    "C17": dict(
-        technique="Coq proof of pathlib algebra (stem++suffix, parse/str round trip, with_name identity) + exhaustive correspondence with pathlib on short strings and CLI no-op runs",
-        text="Proof: stem ++ suffix = name for every name; Base/Ext/Name agree for every context; str(parent)/name parses back to the path and "
-             "with_name(own name) is the identity for every normal relative path — proved in Coq about Py/PathLib.v, a model of the slice of "
-             "pathlib tempren uses. The model is compared with CPython's pathlib on every string over a 9-character alphabet up to length 5 (6 in the "
-             "thorough tier), the real tags are run with every such context, and the three no-op templates are run through the CLI on generated trees.",
-        design_ref="DESIGN.md §4 C17, §3.6",
-        note="Trusted: Coq kernel + vm_compute; axioms none; harness/c17.py + Corr/PathCorr.v; pathlib is modelled, not verified (tie is exhaustive on short strings only). "
-             "The pipeline half of the no-op claim (skip when generated path equals the relative path) is checked on the implementation by CLI runs; its Coq statement lives with the pipeline model."),
-    "C18": dict(
-        technique="Coq proofs of the shape contracts of Trim/Pad/Strip/Collapse/SplitCase and of idempotence/ASCII lifting for character maps + correspondence through compiled templates",
-        text="Proof: length/prefix/suffix laws of Trim, length/containment of Pad, contiguity and clean ends of Strip, no-adjacent/subsequence/keeps-unlisted of Collapse, "
-             "exact splice characterisation of SplitCase, and the lifting of per-code-point idempotence/ASCII-range to all strings — proved for all strings and arguments about Tags/TextTags.v. "
-             "Partial: Unicode case tables, unidecode, pathvalidate and user regexes are oracles (their per-code-point hypotheses are checked exhaustively over all code points, not proved). "
-             "All 13 tags are run through compiled templates on different files, instances and orders; the five modelled ones are compared value by value with the model.",
-        design_ref="DESIGN.md §4 C18, §3.7",
-        note="Trusted: Coq kernel + vm_compute; axioms none; harness/c18.py + Corr/TextCorr.v; str slicing/just/strip and re.sub for two fixed regex shapes are modelled, not verified. "
-             "Lone surrogate code points are excluded for the oracle-only tags (not well-formed text)."),
-    "C19": dict(
-        technique="Coq proofs of the read-loop, streaming law, bit-level CRC-32 chaining/range and %08x + correspondence with zlib/hashlib and an independent reference",
-        text="Proof: the chunked read loop (and any schedule of short reads) concatenates to the whole content; chunked update equals one-shot update for every streaming digest obeying "
-             "hashlib's update law; CRC-32 chaining equals the one-shot value for every split; CRC stays below 2^32; %08x yields eight lower-case digits that read back to the value. "
-             "Partial: the MD5/SHA compression functions are not modelled (the update law is a stated hypothesis); those tags are compared with hashlib one-shot and an independent pure-Python implementation.",
-        design_ref="DESIGN.md §4 C19, §3.7",
-        note="Trusted: Coq kernel + vm_compute; axioms none; harness/c19.py + Corr/HashCorr.v; zlib.crc32 modelled bit by bit and compared (random vectors + all 1-/2-byte strings); "
-             "BufferedReader.read semantics modelled (read sizes observed by wrapping open())."),
-}
+def load_checks():
+    d = os.path.join(VERIF, "harness", "manifest")
+    out = {}
+    for f in sorted(os.listdir(d)):
+        if f.endswith(".json"):
+            out[f[:-5]] = json.load(open(os.path.join(d, f)))
+    return out
+
+
+CHECKS = load_checks()   # one file per claimed property: technique, text, design_ref, note
 
 NOT_YET = {
 }
